@@ -87,7 +87,7 @@ PROPS = {
         "assumptions": ["connection ids are unique (xid)"],
     },
     "C11": {
-        "suites": [("gw", "churn"), ("pure", "blocked")],
+        "suites": [("gw", "churn"), ("pure", "blocked"), ("gw", "throttle")],
         "theorems_carry": "after dispose every item offered to the connection is refused and leaves the gateway state unchanged (for every gateway state)",
         "correspondence_only": "release of exactly the connection's holdings: lockstep with disconnects at random steps + drain monitors. Known finding D4.",
         "assumptions": [],
